@@ -63,6 +63,9 @@ GInit ==
           IN \A shape \in Shapes :
                LET base == Case(k, nb, tail, big, shape, 0, s1, b1, r1, s2, b2, r2)
                IN \A c \in Caches : PrintT(<<"CASE", ToJson([base EXCEPT !.cache = c])>>)
+  \* stored values whose length is around a switch of the length prefix, for a text, a bytes and a JSON string leaf
+  /\ \A t \in VintSwitches : \A len \in {t - 1, t, t + 1} : \A kind \in {"text", "bytes", "json"} :
+       PrintT(<<"CASE", ToJson([what |-> "vint", kind |-> kind, len |-> len, prefix_bytes |-> VintLen(len)])>>)
 GNext == done' = TRUE /\ UNCHANGED svars
 GSpec == GInit /\ [][GNext]_<<done, svars>>
 =============================================================================
